@@ -367,4 +367,73 @@ theorem safe_parse {t : List Ch} {k : Option Nat} (sk : Sk) (p : P) :
     | error f => exact this
     | ok r2 => cases r2 <;> exact this
 
+/-! ### histories that interleave stream operations and whole parses -/
+
+theorem phrase_fst (p : P) (sk : Sk) (x : TS) : (TS.phrase p sk x).1 = ((sk.skip x).andThen (p.parse sk)).1 := by
+  simp only [TS.phrase]
+  rcases (sk.skip x).andThen (p.parse sk) with ⟨y, r⟩
+  cases r with
+  | ok r => rfl
+  | error f => cases f <;> rfl
+
+theorem safe_phrase {t : List Ch} {k : Option Nat} (sk : Sk) (p : P) {x : TS} (h : Good t k x.s) :
+    Safe t k x (TS.phrase p sk x).1 := by
+  rw [phrase_fst]
+  exact safe_andThen (o := sk.skip x) (g := p.parse sk) (safe_skip sk x h) (safe_parse sk p)
+
+/-- the invariant of a history state: the stream is `Good` and every saved position denotes an
+    index of the text with its true line and column -/
+def GoodH (t : List Ch) (k : Option Nat) (h : HState) : Prop :=
+  Good t k h.s ∧ ∀ p ∈ h.saved, ValidPos t p
+
+theorem goodH_open (t : List Ch) (k : Option Nat) : GoodH t k (HState.open t k) :=
+  ⟨good_open t k, by simp [HState.open]⟩
+
+theorem goodH_step {t : List Ch} {k : Option Nat} {h : HState} (g : GoodH t k h) (o : Op) :
+    GoodH t k (step h o).1 := by
+  obtain ⟨g1, g2⟩ := g
+  cases o with
+  | get =>
+    refine ⟨by rw [step_get_s]; exact good_get g1, ?_⟩
+    simp only [step]
+    rcases h.s.getChar with ⟨s', r⟩
+    cases r <;> exact g2
+  | pos =>
+    obtain ⟨a, v⟩ := good_pos g1
+    refine ⟨by rw [step_pos_s]; exact a, ?_⟩
+    simp only [step]
+    rcases hg : h.s.getPosition with ⟨s', r⟩
+    rw [hg] at v
+    cases r with
+    | error f => exact g2
+    | ok p =>
+      intro q hq
+      rcases List.mem_append.mp hq with hq | hq
+      · exact g2 q hq
+      · simp only [List.mem_singleton] at hq
+        subst hq
+        exact v q rfl
+  | set j =>
+    simp only [step]
+    cases hj : h.saved[j]? with
+    | none => exact ⟨g1, g2⟩
+    | some p =>
+      have hv := g2 p (List.mem_of_getElem? hj)
+      have := good_set g1 hv
+      simp only
+      rcases hs : h.s.setPosition p with ⟨s', r⟩
+      rw [hs] at this
+      cases r <;> exact ⟨this, g2⟩
+
+theorem goodH_xrun {t : List Ch} {k : Option Nat} (xs : List XOp) : ∀ {h : HState}, GoodH t k h →
+    GoodH t k (xrun h xs) := by
+  induction xs with
+  | nil => intro h g; exact g
+  | cons o os ih =>
+    intro h g
+    apply ih
+    cases o with
+    | op o => exact goodH_step g o
+    | parse sk p => exact ⟨(safe_phrase sk p (x := ⟨h.s, []⟩) g.1).1, g.2⟩
+
 end Fcppt.C12
